@@ -20,7 +20,7 @@ def delays48 (t : Int) : Int :=
 /-- `DELAYS_128K[t]`: rows 63..254 of 228 T-states, 16 groups of 8 from `row*228 - 3`. -/
 def delays128 (t : Int) : Int :=
   let d := t - (63 * 228 - 3)
-  if 0 ≤ d ∧ d / 228 < 192 ∧ d % 228 < 128 ∧ t < 70908 then pattern (d % 8) else 0
+  if 0 ≤ d ∧ d / 228 < 192 ∧ d % 228 < 128 ∧ t < 70908 then pattern ((d % 228) % 8) else 0
 
 /-- `contend_48k(t, timings)` -/
 def contend48 (t : Int) (timings : List (Int × Int)) : Int :=
